@@ -88,11 +88,14 @@ def concretise(run, vc, model_assertions, tier):
     trusted for display)."""
     extra = []
     cands = list(run.universe)
+    def cands_of(spec):
+        cs = spec[2] if len(spec) > 2 else cands
+        return [c for c in cs if c.sort() == spec[1].sort().domain()]
     for name, spec in run.inputs.items():
         if isinstance(spec, tuple) and spec[0] == 'set':
-            q = z3.FreshConst(spec[1].sort().domain(), 'u')
-            if cands:
-                extra.append(z3.ForAll([q], z3.Implies(spec[1][q], z3.Or(*[q == c for c in cands if c.sort() == q.sort()]))))
+            q = z3.FreshConst(spec[1].sort().domain(), 'u'); cs = cands_of(spec)
+            if cs:
+                extra.append(z3.ForAll([q], z3.Implies(spec[1][q], z3.Or(*[q == c for c in cs]))))
     verdict, backend, secs, m = solve.check(model_assertions + extra, tier, strings=False)
     if verdict != 'sat' or m is None:
         return None
@@ -108,9 +111,11 @@ def concretise(run, vc, model_assertions, tier):
     for name, spec in run.inputs.items():
         if isinstance(spec, tuple) and spec[0] == 'set':
             vals = set()
-            for c in cands:
-                if c.sort() == spec[1].sort().domain() and z3.is_true(ev(spec[1][c])): vals.add(py(ev(c)))
+            for c in cands_of(spec):
+                if z3.is_true(ev(spec[1][c])): vals.add(py(ev(c)))
             out[name] = sorted(vals, key=repr)
+        elif isinstance(spec, tuple) and spec[0] == 'map':
+            out[name] = {py(ev(c)): py(ev(spec[1](c))) for c in spec[2]}
         elif isinstance(spec, tuple) and spec[0] == 'opt':
             out[name] = None if z3.is_true(ev(spec[1])) else py(ev(spec[2]))
         else:
